@@ -13,7 +13,12 @@
                       WriteResurrectionWithXattrs CAS rules, SetRaw / Delete / SetXattrs, CAS clock
      base.LeakyDataStore  the update callback fired after each attempt's callback (race placement)
 
-   Data: body ids, CAS values, sequences, generations are N.  Body id 0 stands for the empty object {}.
+                      db/hybrid_logical_vector.go  AddVersion, InvalidateMV, GetValue, SetPreviousVersion (the
+                      Import and NewVersion cases of updateHLV: source id, version, cvCas, merge versions, previous versions)
+                      db/import.go  the counters ImportCount / ImportCancelCAS / ImportErrorCount
+
+   Data: body ids, CAS values, sequences, generations, source ids and versions are N.  Body id 0 stands for the empty
+   object {}.  Source id 0 is this gateway's own source (EncodedSourceID), other ids are other clusters.
    crc32c is a Section variable; the theorems assume it distinguishes the bodies involved. *)
 From SG Require Export Base.Prelude.
 Open Scope N_scope.
@@ -34,8 +39,44 @@ Definition rev_eqb (a b : rev) : bool :=
   (r_gen a =? r_gen b) && (r_parent a =? r_parent b) && Bool.eqb (r_del a) (r_del b) && (r_body a =? r_body b).
 
 (* [s_att]: (pre-4.0) attachment metadata is still stored inside _sync and awaits migration to _globalSync *)
-Record syncd := mkSync { s_cas : N; s_crc : N; s_cv : N; s_hist : list rev; s_seq : N; s_att : bool }.   (* _sync *)
-Record vvd := mkVV { v_ver : N; v_cvcas : N }.                                             (* _vv *)
+(* [s_cvsrc], [s_cv]: _sync.rev.src / _sync.rev.ver *)
+Record syncd := mkSync { s_cas : N; s_crc : N; s_cv : N; s_hist : list rev; s_seq : N; s_att : bool; s_cvsrc : N }.   (* _sync *)
+
+(* association lists source id -> version (HLVVersions maps) *)
+Definition alist := list (N * N).
+Fixpoint aget (l : alist) (k : N) : option N :=
+  match l with [] => None | (a, x) :: t => if a =? k then Some x else aget t k end.
+Definition adel (l : alist) (k : N) : alist := filter (fun p => negb (fst p =? k)) l.
+Definition aset (l : alist) (k x : N) : alist := (k, x) :: adel l k.
+
+(* _vv: current version (source, version), cvCas, merge versions, previous versions *)
+Record vvd := mkVV { v_src : N; v_ver : N; v_cvcas : N; v_mv : alist; v_pv : alist }.
+Definition local_src : N := 0.
+
+(* HybridLogicalVector.GetValue: current version, then merge versions, then previous versions *)
+Definition hlv_get (v : vvd) (k : N) : option N :=
+  if k =? v_src v then Some (v_ver v)
+  else match aget (v_mv v) k with Some x => Some x | None => aget (v_pv v) k end.
+
+(* InvalidateMV: every merge version moves to the previous versions (overriding an entry of the same source),
+   except one that shares its source with cv.  (A Go map has one entry per source; for a list with a repeated
+   source the first entry wins, as in [aget].) *)
+Definition hlv_invalidate_mv (v : vvd) : alist :=
+  fold_right (fun p pv => if fst p =? v_src v then pv else aset pv (fst p) (snd p)) (v_pv v) (v_mv v).
+
+(* AddVersion(Version{src, ver}) on an HLV that has a current version; None = the error
+   "attempting to add new version vector entry with a value that is less than the existing value for the same source" *)
+Definition hlv_add (v : vvd) (src ver : N) : option vvd :=
+  if match hlv_get v src with Some x => ver <? x | None => false end then None
+  else
+    let pv1 := hlv_invalidate_mv v in
+    if src =? v_src v then Some (mkVV src ver (v_cvcas v) [] pv1)
+    else Some (mkVV src ver (v_cvcas v) [] (adel (aset pv1 (v_src v) (v_ver v)) src)).
+
+Definition set_cvcas (c : N) (v : vvd) : vvd := mkVV (v_src v) (v_ver v) c (v_mv v) (v_pv v).
+(* every value recorded for this gateway's own source is older than [c] *)
+Definition alist_local_lt (l : alist) (c : N) : bool :=
+  forallb (fun p => negb (fst p =? local_src) || (snd p <? c)) l.
 Record moud := mkMou { m_cas : N; m_pcas : N }.                                            (* _mou *)
 
 Record bdoc := mkDoc { d_st : dstat; d_body : N; d_cas : N;
@@ -45,31 +86,38 @@ Definition absent_doc : bdoc := mkDoc Absent 0 0 None None None.
 Inductive op :=
 | SdkSet (b : N) | SdkDelete | SdkTouch
 | LegacyWrite (b : N)
+| ForeignWrite (b : N) (h : vvd)
 | GwWrite (b : N) | GwDelete | GwMetaOnly | Read | Feed (k : N)
 | Race (g : op) (n : N) (x : op).
 
 Inductive res := ROk | RConflict | RNotFound | RIgnored | ROther.
 
 (* [imports], [exts], [wb] are ghost: ImportCount, number of external body writes, and liveness + body as left
-   by the last writer (an external write or an ACCEPTED gateway write) *)
+   by the last writer (an external write or an ACCEPTED gateway write); [cancels], [imperrs]: the counters
+   ImportCancelCAS and ImportErrorCount *)
 Record state := mkSt { clk : N; doc : bdoc; nseq : N; evs : list bdoc;
-                       imports : N; exts : N; hk : option (N * op); wb : dstat * N }.
-Definition init : state := mkSt 0 absent_doc 0 [absent_doc] 0 0 None (Absent, 0).
+                       imports : N; exts : N; hk : option (N * op); wb : dstat * N;
+                       cancels : N; imperrs : N }.
+Definition init : state := mkSt 0 absent_doc 0 [absent_doc] 0 0 None (Absent, 0) 0 0.
 
 Definition set_doc (s : state) (d : bdoc) : state :=
-  mkSt (N.succ (clk s)) d (nseq s) (evs s) (imports s) (exts s) (hk s) (wb s).
+  mkSt (N.succ (clk s)) d (nseq s) (evs s) (imports s) (exts s) (hk s) (wb s) (cancels s) (imperrs s).
 Definition set_nseq (s : state) (n : N) : state :=
-  mkSt (clk s) (doc s) n (evs s) (imports s) (exts s) (hk s) (wb s).
+  mkSt (clk s) (doc s) n (evs s) (imports s) (exts s) (hk s) (wb s) (cancels s) (imperrs s).
 Definition set_hk (s : state) (h : option (N * op)) : state :=
-  mkSt (clk s) (doc s) (nseq s) (evs s) (imports s) (exts s) h (wb s).
+  mkSt (clk s) (doc s) (nseq s) (evs s) (imports s) (exts s) h (wb s) (cancels s) (imperrs s).
 Definition add_import (s : state) : state :=
-  mkSt (clk s) (doc s) (nseq s) (evs s) (N.succ (imports s)) (exts s) (hk s) (wb s).
+  mkSt (clk s) (doc s) (nseq s) (evs s) (N.succ (imports s)) (exts s) (hk s) (wb s) (cancels s) (imperrs s).
 Definition add_ext (s : state) : state :=
-  mkSt (clk s) (doc s) (nseq s) (evs s) (imports s) (N.succ (exts s)) (hk s) (wb s).
+  mkSt (clk s) (doc s) (nseq s) (evs s) (imports s) (N.succ (exts s)) (hk s) (wb s) (cancels s) (imperrs s).
 Definition set_wb (s : state) (w : dstat * N) : state :=
-  mkSt (clk s) (doc s) (nseq s) (evs s) (imports s) (exts s) (hk s) w.
+  mkSt (clk s) (doc s) (nseq s) (evs s) (imports s) (exts s) (hk s) w (cancels s) (imperrs s).
 Definition push_ev (s : state) : state :=
-  mkSt (clk s) (doc s) (nseq s) (evs s ++ [doc s]) (imports s) (exts s) (hk s) (wb s).
+  mkSt (clk s) (doc s) (nseq s) (evs s ++ [doc s]) (imports s) (exts s) (hk s) (wb s) (cancels s) (imperrs s).
+Definition add_cancel (s : state) : state :=
+  mkSt (clk s) (doc s) (nseq s) (evs s) (imports s) (exts s) (hk s) (wb s) (N.succ (cancels s)) (imperrs s).
+Definition add_err (s : state) : state :=
+  mkSt (clk s) (doc s) (nseq s) (evs s) (imports s) (exts s) (hk s) (wb s) (cancels s) (N.succ (imperrs s)).
 
 Definition hist_of (d : bdoc) : list rev := match d_sync d with Some sy => s_hist sy | None => [] end.
 Definition cur_rev (d : bdoc) : option rev := hd_error (hist_of d).
@@ -93,7 +141,7 @@ Definition body_crc (d : bdoc) : N := if is_alive d then crc (d_body d) else del
 (* own-write detection (db/document.go)                                                     *)
 
 Definition cv_ok (sy : syncd) (vv : option vvd) : bool :=
-  match vv with Some v => v_ver v =? s_cv sy | None => true end.
+  match vv with Some v => (v_src v =? s_cvsrc sy) && (v_ver v =? s_cv sy) | None => true end.
 
 (* SyncData.IsSGWrite(cas, rawBody, userXattr = none, cv) *)
 Definition sd_is_sg_write (sy : syncd) (cas rawcrc : N) (vv : option vvd) : bool :=
@@ -132,7 +180,7 @@ Record update := mkUpd { u_tomb : bool;                   (* UpdatedDoc.IsTombst
                          u_vv : option (vvd * bool);      (* _vv to write, with cvCas macro-expanded or not *)
                          u_mou : mouact }.
 
-Inductive errk := EConflict | EAlready | ECancelled | ECasFail | EUpdateCancel | EOther | EFuel.
+Inductive errk := EConflict | EAlready | ECancelled | ECasFail | EUpdateCancel | EOther | EFuel | EHlv.
 Inductive cbres := CbRetry | CbErr (e : errk) | CbWrite (u : update).
 Inductive wres := WOk (d : bdoc) | WRetry | WErr.
 Inductive lres := LOk | LErr (e : errk).
@@ -141,11 +189,11 @@ Definition apply_upd (cleared : bool) (cur : bdoc) (st' : dstat) (body' : N) (u 
   let b' := match st' with Alive => body' | _ => 0 end in
   let crc' := match st' with Alive => crc body' | _ => delcrc end in
   let sy := u_sync u in
-  let sy' := if u_macro u then mkSync nc crc' (s_cv sy) (s_hist sy) (s_seq sy) (s_att sy) else sy in
+  let sy' := if u_macro u then mkSync nc crc' (s_cv sy) (s_hist sy) (s_seq sy) (s_att sy) (s_cvsrc sy) else sy in
   let vv0 := if cleared then None else d_vv cur in
   let mou0 := if cleared then None else d_mou cur in
   let vv' := match u_vv u with
-             | Some (v, true) => Some (mkVV (v_ver v) nc)
+             | Some (v, true) => Some (set_cvcas nc v)
              | Some (v, false) => Some v
              | None => vv0 end in
   let mou' := match u_mou u with MouKeep => mou0 | MouDel => None | MouSet pc => Some (mkMou nc pc) end in
@@ -216,8 +264,30 @@ Definition legacy_write (s : state) (b : N) : state * res :=
       let nc := N.succ (clk s) in
       let seq := N.succ (nseq s) in
       (set_wb (set_doc (set_nseq s seq)
-                 (mkDoc Alive b nc (Some (mkSync nc (crc b) nc [R 1 0 false b] seq true)) (Some (mkVV nc nc)) None))
+                 (mkDoc Alive b nc (Some (mkSync nc (crc b) 0 [R 1 0 false b] seq true local_src))
+                      (Some (mkVV local_src 0 nc [] [])) None))
               (Alive, b), ROk)
+  | _ => (s, RIgnored)
+  end.
+
+(* a document as another cluster's gateway wrote it and XDCR delivered it here: a gateway write (CAS and checksum
+   agree with the document) whose version vector [h] has a current version of a foreign source and arbitrary merge /
+   previous versions; entries of this gateway's own source must be older than the document (XDCR only delivers
+   versions that are not ahead of the CAS).  Only on a missing document. *)
+Definition foreign_ok (h : vvd) (nc : N) : bool :=
+  negb (v_src h =? local_src) && alist_local_lt (v_mv h) nc && alist_local_lt (v_pv h) nc.
+
+Definition foreign_write (s : state) (b : N) (h : vvd) : state * res :=
+  match d_st (doc s) with
+  | Absent =>
+      let nc := N.succ (clk s) in
+      let seq := N.succ (nseq s) in
+      if foreign_ok h nc then
+        (set_wb (set_doc (set_nseq s seq)
+                   (mkDoc Alive b nc (Some (mkSync nc (crc b) (v_ver h) [R 1 0 false b] seq false (v_src h)))
+                          (Some (set_cvcas nc h)) None))
+                (Alive, b), ROk)
+      else (s, RIgnored)
   | _ => (s, RIgnored)
   end.
 
@@ -229,7 +299,7 @@ Definition migrate (ev : bdoc) (sy : syncd) (s : state) : state :=
   if (d_cas cur =? d_cas ev) && is_alive cur then
     let nc := N.succ (clk s) in
     set_doc s (mkDoc Alive (d_body cur) nc
-                     (Some (mkSync nc (crc (d_body cur)) (s_cv sy) (s_hist sy) (s_seq sy) false))
+                     (Some (mkSync nc (crc (d_body cur)) (s_cv sy) (s_hist sy) (s_seq sy) false (s_cvsrc sy)))
                      (d_vv cur) (Some (mkMou nc (s_cas sy))))
   else s.
 
@@ -271,6 +341,15 @@ Fixpoint upd_loop {M : Type} (fuel : nat) (cb : M -> state -> prev -> state * cb
 (* the callback importDoc hands to updateAndReturnDoc, followed by documentUpdateFunc / updateHLV(Import) *)
 Record imem := mkImem { im_del : bool; im_cas : N; im_raw : option N }.   (* isDelete, existingDoc.Cas, existingDoc.Body *)
 
+(* updateHLV(Import): the HLV an import of [d] writes.  Unchanged when the mutation is already the current version
+   (_vv.cvCas = cas, or _mou.cas = cas); otherwise AddVersion(own source, cas) and cvCas := cas.  None: AddVersion failed. *)
+Definition import_hlv (d : bdoc) : option vvd :=
+  match d_vv d with
+  | Some v => if (v_cvcas v =? d_cas d) || mou_match d then Some v
+              else option_map (set_cvcas (d_cas d)) (hlv_add v local_src (d_cas d))
+  | None => Some (mkVV local_src (d_cas d) (d_cas d) [] [])
+  end.
+
 (* one attempt once it is settled which document version is imported and whether it is a delete *)
 Definition import_attempt (isdel : bool) (ex_raw : option N) (s : state) (d : bdoc) : state * cbres :=
   if d_cas d =? 0 then (s, CbErr ECancelled)
@@ -280,14 +359,14 @@ Definition import_attempt (isdel : bool) (ex_raw : option N) (s : state) (d : bd
     let tag := match ex_raw with Some b => b | None => 0 end in
     let pg := cur_gen d in
     let nr := R (N.succ pg) pg isdel tag in
-    let vv' := match d_vv d with
-               | Some v => if (v_cvcas v =? d_cas d) || mou_match d then v else mkVV (d_cas d) (d_cas d)
-               | None => mkVV (d_cas d) (d_cas d)
-               end in
     let seq := N.succ (nseq s) in
-    let sy := mkSync 0 0 (v_ver vv') (nr :: hist_of d) seq false in
-    let ub := if doc_deleted d then Some tag else None in
-    (set_nseq s seq, CbWrite (mkUpd isdel ub sy true (Some (vv', false)) (MouSet (mou_pcas d)))).
+    match import_hlv d with
+    | None => (set_nseq s seq, CbErr EHlv)        (* the error surfaces after the sequence was allocated *)
+    | Some vv' =>
+        let sy := mkSync 0 0 (v_ver vv') (nr :: hist_of d) seq false (v_src vv') in
+        let ub := if doc_deleted d then Some tag else None in
+        (set_nseq s seq, CbWrite (mkUpd isdel ub sy true (Some (vv', false)) (MouSet (mou_pcas d))))
+    end.
 
 Definition import_cb (feed : bool) (m : imem) (s : state) (p : prev) : state * cbres * imem :=
   let d := p_doc p in
@@ -301,7 +380,7 @@ Definition import_cb (feed : bool) (m : imem) (s : state) (p : prev) : state * c
     let '(s1, r) := import_attempt isdel ex_raw s d in
     (s1, r, mkImem isdel (d_cas d) ex_raw).
 
-Inductive ires := IImported | IAlready | ICancelled | ICasFail | IErr.
+Inductive ires := IImported | IAlready | ICancelled | ICasFail | IErr | IHlvErr.
 
 Definition import_run (feed isdel : bool) (ex : bdoc) (ex_raw : option N) (s : state) : state * ires :=
   let '(s', r) := upd_loop 6 (import_cb feed) (mkImem isdel (d_cas ex) ex_raw) (Some (mkPrev ex false)) s in
@@ -309,8 +388,9 @@ Definition import_run (feed isdel : bool) (ex : bdoc) (ex_raw : option N) (s : s
   | LOk => (add_import s', IImported)
   | LErr EAlready => (s', IAlready)
   | LErr ECancelled => (s', ICancelled)
-  | LErr ECasFail => (s', ICasFail)
-  | LErr _ => (s', IErr)
+  | LErr ECasFail => (add_cancel s', ICasFail)          (* ImportCancelCAS *)
+  | LErr EHlv => (add_err s', IHlvErr)                  (* ImportErrorCount *)
+  | LErr _ => (add_err s', IErr)
   end.
 
 (* OnDemandImportForWrite(doc, deleted): [Some e] = the error it returns *)
@@ -356,10 +436,16 @@ Definition put_cb (b : option N) (matchrev : list rev) (s : state) (p : prev) : 
       | Some pg =>
           let nr := R (N.succ pg) pg deleted (match b with Some x => x | None => 0 end) in
           let seq := N.succ (nseq s1) in
-          let ver := N.succ (clk s1) in
-          let sy := mkSync 0 0 ver (nr :: hist_of d) seq false in
-          let mou := match d_mou d with Some _ => if is_alive d then MouDel else MouKeep | None => MouKeep end in
-          (set_nseq s1 seq, CbWrite (mkUpd deleted b sy true (Some (mkVV ver 0, true)) mou), matchrev')
+          (* the version is an HLC reading taken after the version the write is based on (and above every value
+             of the own source in the HLV) and before the write's own CAS: modelled by that version's CAS *)
+          let ver := d_cas d in
+          match (match d_vv d with Some v => hlv_add v local_src ver | None => Some (mkVV local_src ver 0 [] []) end) with
+          | None => (set_nseq s1 seq, CbErr EHlv, matchrev')
+          | Some vv' =>
+              let sy := mkSync 0 0 ver (nr :: hist_of d) seq false local_src in
+              let mou := match d_mou d with Some _ => if is_alive d then MouDel else MouKeep | None => MouKeep end in
+              (set_nseq s1 seq, CbWrite (mkUpd deleted b sy true (Some (vv', true)) mou), matchrev')
+          end
       end
   end.
 
@@ -371,7 +457,7 @@ Definition meta_cb (m : unit) (s : state) (p : prev) : state * cbres * unit :=
        | None => (s, CbErr EUpdateCancel, tt)
        | Some sy =>
            let seq := N.succ (nseq s) in
-           let sy' := mkSync (s_cas sy) (s_crc sy) (s_cv sy) (s_hist sy) seq false in
+           let sy' := mkSync (s_cas sy) (s_crc sy) (s_cv sy) (s_hist sy) seq false (s_cvsrc sy) in
            (set_nseq s seq, CbWrite (mkUpd false None sy' false None (MouSet (mou_pcas d))), tt)
        end.
 
@@ -412,6 +498,7 @@ Definition gw_read (s : state) : state * res :=
         let '(s', r) := import_run false (negb (is_alive d)) d (raw_of d) s in
         match r with
         | IImported | IAlready => (s', ROk)
+        | IHlvErr => (s', ROther)
         | _ => (s', RNotFound)
         end
   end.
@@ -441,6 +528,7 @@ Definition simple_step (o : op) (s : state) : state * res :=
   | SdkDelete => ext_del s
   | SdkTouch => ext_touch s
   | LegacyWrite b => legacy_write s b
+  | ForeignWrite b h => foreign_write s b h
   | GwWrite b => gw_put (Some b) s
   | GwDelete => gw_put None s
   | GwMetaOnly => gw_meta s
